@@ -464,11 +464,16 @@ def gen_pool(rng, n):
 
 
 def gen_case(rng, index, tier):
-    if rng.random() < 0.04:
-        return dict(kind='xproc', pool=gen_pool(rng, 8) + gen_pool(rng, 8) + gen_pool(rng, 8), hashseed=rng.choice([1, 2, 12345, 'random']))
+    if rng.random() < 0.07:
+        # other interpreter, other hash seed: order-free containers of strings are what a seed-dependent hash would get wrong
+        extra = [['fset', [['str', w] for w in rng.sample(['a', 'b', 'ab', 'abc', 'c', 'bc', 'x', 'yz', 'None', '1'], rng.choice([2, 3, 5]))]],
+                 ['dict', [[['str', w], ['int', i]] for i, w in enumerate(rng.sample(['a', 'b', 'ab', 'abc', 'c', 'bc', 'x'], rng.choice([2, 3, 4])))]],
+                 ['fmset', [['str', w] for w in rng.sample(['a', 'b', 'ab', 'abc', 'c'], 3)] + [['bytes', '61']]],
+                 ['fdict', [[['str', w], ['float', 0.5]] for w in rng.sample(['k', 'kk', 'kkk', 'q'], 3)]]]
+        return dict(kind='xproc', pool=gen_pool(rng, 8) + gen_pool(rng, 8) + extra, hashseed=rng.choice([1, 2, 12345, 'random']))
     pool = gen_pool(rng, rng.choice([3, 4, 5, 6, 8]))
     ops = []
-    for _ in range(rng.choice([5, 10, 18, 30])):
+    for _ in range(rng.choice([5, 10, 18, 30] + ([60] if tier == 'thorough' else []))):
         r = rng.random()
         if r < 0.45:
             i = rng.randrange(len(pool))
